@@ -106,11 +106,8 @@ Proof.
 Qed.
 
 (* ---------- the BUNDLE group of an answer ---------- *)
-(* the tags bundleMatchFromRemote compares with: the remote a=group value with
-   the leading characters of "BUNDLE" trimmed, split at spaces *)
-Definition remote_group_value (d : rdesc) : string :=
-  trim_left_bundle (match r_group d with Some v => v | None => EmptyString end).
-Definition in_remote_group (d : rdesc) (m : string) : bool := bundle_match (Some (remote_group_value d)) m.
+(* in_remote_group (Model/JsepMidSpec.v): the mid is one of the tags
+   bundleMatchFromRemote compares with *)
 
 Lemma map_port0_lsec g secs :
   map l_port0 (map (lsec_of g) secs) = map (fun m => negb (bundle_match g m)) (ids secs).
